@@ -331,7 +331,7 @@ def gen_file(rng, fi, max_frames=40, names_pool=None):
          'absent': -999.25, 'channels': channels, 'always_spacing': rng.chance(0.5)}
     if indirect and d['xrc'] == 73:
         d['spacing'] = float(rng.pick([1, 2, 6, 60]))
-    nframes = rng.wpick([(1, 1), (2, rng.randrange(2, 6)), (5, rng.randrange(4, max_frames + 1))])
+    nframes = rng.wpick([(1, 1), (2, rng.randrange(2, 6)), (5, rng.randrange(min(4, max_frames), max_frames + 1))])
     # frames per record pattern
     per = rng.wpick([(3, 1), (3, rng.randrange(2, 5)), (3, rng.randrange(3, 12)), (1, nframes)])
     pattern = rng.wpick([(6, 'regular'), (3, 'irregular')])
